@@ -9,10 +9,13 @@ CLAIMS = {
              "Status composition / looped symmetry / default base levels clauses are decided by their own groups when listed in the evidence.",
     ),
     "C08": dict(
-        category="proof",
-        text="Memory-safety obligations (bounds, pointer, overflow, conversion, div-by-zero, xtensor per-dimension index) generated by "
-             "cbmc for every function under contract, under that function's precondition. Narrow claim: per function, not every public operation.",
-        note="Glue, xtensor internals, the eroders' expression code and the thread pool synchronisation are unverified and listed in the evidence.",
+        category="other",
+        text="Per-function memory-safety obligations: one group per extracted function (iterators, routers, flood, sweeps, status composition, "
+             "grid index code, cache, accessors, snapshot copy, SPL step, union-find, pool arithmetic where listed) enforcing that function's "
+             "contract with all of cbmc's bounds/pointer/overflow/conversion/div-by-zero checks and the per-dimension xtensor index obligations "
+             "on, for all inputs satisfying its precondition. Narrow claim: not a proof about every public operation.",
+        note="Glue, xtensor internals, diffusion_adi, trimesh construction, apply_kernel and the thread pool's synchronisation are unverified and listed; "
+             "donor-row capacity is a stated precondition instance; growing containers are modelled with a symbolic capacity.",
     ),
 }
 CLAIMS["C20"] = dict(
@@ -120,9 +123,38 @@ CLAIMS["C03"] = dict(
          "order in exact arithmetic (unmechanised); equality up to rounding and the four public overloads are undecided.",
     note="Products and sums abstracted as deterministic functions keyed on operands in the equation groups (sign facts bit-precise); order contract assumed.",
 )
+CLAIMS["C12"] = dict(
+    category="other",
+    text="Unbounded contract proofs on the extracted erode() (outlined node step, receiver step, sweep with loop contract) and the exponent "
+         "setter/constructor: erosion is reset at every call and written only in a node's own iteration; outlets/pits and lake nodes keep zero; "
+         "the node's updated elevation is never below the lowest post-erosion receiver elevation (clamp); a slope exponent other than one is "
+         "rejected on multiple-direction graphs on the setter AND the construction path. Two clauses fail on the current tree and are printed as "
+         "KNOWN-FINDING: F8 (h - fl(h - u) can round one ulp below the floor) and F12 (extreme K dt products give NaN / -inf erosion).",
+    note="Order contract and receiver-table well-formedness assumed (producers: C04/C05/C06); std::pow abstracted (>= 0 only). 'Never negative "
+         "beyond rounding' is undecided (no bit-precise bound on the quotient).",
+)
+CLAIMS["C13"] = dict(
+    category="other",
+    text="Decided: the linear-case classification (|n - 1| <= eps, stated independently and proved bit-precisely), its evaluation on the "
+         "construction path, and the Newton exit clause for finite operands (|residual| <= tolerance or the drop reached zero), after the "
+         "repair of the one-sided exit test. Undecided: that the closed form for n = 1 and the Newton fixed point solve the discretised "
+         "equation within rounding (needs real arithmetic / pow semantics).",
+    note="std::pow abstracted; NaN operands (extreme products) are excluded from the exit clause and reported as known finding F12.",
+)
+CLAIMS["C16"] = dict(
+    category="other",
+    text="Unbounded contract proofs (one group per snapshot table, ghost cell) that _save copies EVERY table a snapshot graph exposes -- receivers, "
+         "count, distance, weight (column 0 when the snapshot is single-flow, also when the live graph is wider), donors (all columns), donors "
+         "count, dfs and bfs orders and levels -- that the source is outside the write frame, that the elevation snapshot equals the elevation "
+         "passed and that save() dispatches on the operator's flags; every mutating call on a snapshot graph is refused (guards); basins() "
+         "recomputes in every call. Equivalence with 'a graph running only the prefix' beyond table equality is the composition of the other "
+         "properties' functional contracts (unmechanised); mask/base levels of snapshot graphs are not copied by design and undecided.",
+    note="xtensor whole-array / column-view assignment modelled as element-wise loops with their own contracts; one bounded group (<= 2 nodes) "
+         "judges explicit-loop rewrites of the column copy.",
+)
 _PLANNED = "check not built yet in this session (planned in DESIGN.md section 4); nothing is claimed"
 NOT_APPLICABLE = {
     "C14": "equality up to rounding with a direct ADI solve: no bit-precise postcondition exists, the Thomas recurrence is nonlinear floating point over an unbounded loop (beyond every installed back end) and the body is xtensor expression algebra that cannot be extracted mechanically (DESIGN.md section 5)",
 }
-for _p in ["C12", "C13", "C15", "C16"]:
+for _p in ["C15"]:
     NOT_APPLICABLE[_p] = _PLANNED
